@@ -215,8 +215,8 @@ CORPUS = [
       "interfaces": {"Node": {"fields": [("id", "ID!"), ("old", "String", "gone")]}},
       "objects": {"User": {"fields": [("id", "ID!"), ("old", "String", "gone"), ("name", "String"), ("mood", "Mood!"), ("at", "DateTime"), ("friends", "[User!]"), ("legacy", "Int", "")], "implements": ["Node"]},
                   "Bot": {"fields": [("id", "ID!"), ("old", "String", "gone"), ("version", "Int!")], "implements": ["Node"]},
-                  "Query": {"fields": [("node", "Node"), ("user", "User"), ("search", "[Hit!]!", None, [("filter", "Filter"), ("limit", "Int!", "10"), ("moods", "[Mood!]")]), ("find", "User", None, [("id", "ID!")])]}},
-      "unions": {"Hit": ["User", "Bot"]},
+                  "Query": {"fields": [("node", "Node"), ("user", "User"), ("search", "[Hit!]!", None, [("filter", "Filter"), ("limit", "Int!", "10"), ("moods", "[Mood!]")]), ("find", "User", None, [("id", "ID!")]), ("any", "Any")]}},
+      "unions": {"Hit": ["Bot", "User"], "Any": ["Bot", "Query", "User"]},
       "inputs": {"Filter": {"fields": [("name", "String"), ("moods", "[Mood!]"), ("sub", "Filter"), ("limit", "Int!", "10"), ("page", "Int", "1"), ("tags", "[String!]!", "[]"), ("since", "DateTime")]}},
       "query": "Query"},
      ["query A { user { id name mood at friends { id } legacy } }",
@@ -224,7 +224,9 @@ CORPUS = [
       "query C { search { __typename ... on User { id } ... on Bot { id version } } }",
       "fragment F on User { id name } query D { user { ...F } find(id: \"1\") { ...F mood } }",
       "query E($filter: Filter, $limit: Int!, $moods: [Mood!]) { search(filter: $filter, limit: $limit, moods: $moods) { __typename ... on User { id } } }",
-      "query G($id: ID!) { find(id: $id) { id name } }"]),
+      "query G($id: ID!) { find(id: $id) { id name } }",
+      # a union whose members are listed in an order that is neither the declaration order of the types nor alphabetical
+      "query H { any { __typename ... on User { id } } search { __typename } }"]),
 ]
 
 
